@@ -113,7 +113,10 @@ fn c08_control_flow_programs() {
             witness("C01", "analyze.panic", format!("{name}: {code:02x?}"), "PANIC".into(), "layout or error".into());
             continue;
         }
-        if let Some(s) = must_not { if has_slot(&o, s) { witness("C08", "ctl.no_illegal_transfer", format!("{name}: {code:02x?}"), format!("slot {s} reported"), "unreachable code not executed".into()); } }
+        if let Some(s) = must_not { if has_slot(&o, s) {
+            witness("C08", "ctl.no_illegal_transfer", format!("{name}: {code:02x?}"), format!("slot {s} reported"), "unreachable code not executed".into());
+            witness("C05", "slots.only_accessed_slots.dead_code_executed", format!("{name}: {code:02x?}"), format!("slot {s} reported"), "only slots of EVM-reachable storage accesses".into());
+        } }
         if let Some(s) = must { if !has_slot(&o, s) { witness("C08", "ctl.legal_transfer_followed", format!("{name}: {code:02x?}"), format!("slot {s} missing"), format!("slot {s}")); } }
     }
     println!("CASES c08_programs {n}");
